@@ -2,7 +2,8 @@
    non-vacuity of the hypotheses of the C05/C06 theorems, and the refutations of the three
    pre-repair behaviours kept in Model/RunLoop.v ([start_v0]: F-C06, [resume_v0]: F-C05,
    [estep_v0]: F-C05c). The graphs are the corpus cases of corpus/C05 and corpus/C06. *)
-From Eino Require Import Base.Util Model.Graph Model.RunLoop Model.Interrupt Model.IntrObs Proofs.RunLoop.
+From Eino Require Import Base.Util Model.Graph Model.RunLoop Model.Interrupt Model.IntrObs Proofs.RunLoop
+     Proofs.RunLoopRerun Proofs.InterruptRerun.
 Open Scope N_scope.
 
 Definition x1 : value := VMap [(0, VAtom 1)].
@@ -46,14 +47,15 @@ Lemma start_v0_runs_before_node :
        init_chans value (gs_graph g) = Ok cs0 ->
        start_v0 VNil (ifold (gs_graph g)) (igetr (gs_graph g)) (pre_fn g) ex (gs_before g) (gs_after g)
                 (seg_fuel (gs_graph g)) cs0 (gs0 g) x e = (o, log, e') ->
-       forall ev, In ev log -> memN (fst (fst ev)) (gs_before g) = false).
+       forall ev, In ev log -> memN (ev_key ev) (gs_before g) = false).
 Proof.
   intro H.
   destruct (init_chans value (gs_graph w_first)) as [cs0| |] eqn:Hi; try (vm_compute in Hi; discriminate).
   destruct (start_v0 VNil (ifold (gs_graph w_first)) (igetr (gs_graph w_first)) (pre_fn w_first) w_first_ex
               (gs_before w_first) (gs_after w_first) (seg_fuel (gs_graph w_first)) cs0 (gs0 w_first) x1 (env0 []))
     as [[o log] e'] eqn:Hs.
-  specialize (H w_first w_first_ex cs0 x1 (env0 []) o log e' Hi Hs (2, x1, false)).
+  specialize (H w_first w_first_ex cs0 x1 (env0 []) o log e' Hi Hs
+                {| ev_key := 2; ev_in := x1; ev_abort := false; ev_skip := false |}).
   vm_compute in Hi. inversion Hi; subst cs0. vm_compute in Hs. inversion Hs; subst.
   assert (Hf : memN 2 (gs_before w_first) = false) by (apply H; simpl; auto).
   vm_compute in Hf. discriminate.
@@ -74,7 +76,7 @@ Definition w_loop_ex := node_exec 2 w_loop_F w_loop_top.
 Definition w_loop_gr := gs_graph w_loop_top.
 
 (* the second call of the run: resumed from the checkpoint of the first, repaired or not *)
-Definition w_loop_call1 (v0 : bool) : option (N * list evt) :=
+Definition w_loop_call1 (v0 : bool) : option (N * list N) :=
   match seg_fresh w_loop_ex 0 w_loop_top x1 (env0 []) with
   | (OInterrupted _ c, _, e) =>
       let e1 := clear_log e in
@@ -82,21 +84,19 @@ Definition w_loop_call1 (v0 : bool) : option (N * list evt) :=
         if v0 then resume_v0 VNil (ifold w_loop_gr) (igetr w_loop_gr) (pre_fn w_loop_top) w_loop_ex [] []
                              (seg_fuel w_loop_gr) (fun s => s) c e1
         else seg_resumed w_loop_ex 0 w_loop_top (fun s => s) c e1 in
-      Some (class_of w_loop_gr o, e_log e')
+      Some (class_of w_loop_gr o, map (fun x : xevt => fst (fst x)) (execs_of (e_log e')))
   | _ => None
   end.
 
 (* repaired: the nested graph finishes, the loop comes back to it, it starts FRESH (node 4 runs on the
    new input) and interrupts again before node 5 *)
-Lemma w_loop_repaired : exists l, w_loop_call1 false = Some (cInterrupt, l) /\
-  map (fun ev : evt => fst (fst ev)) l = [5; 3; 4].
-Proof. eexists; split; vm_compute; reflexivity. Qed.
+Lemma w_loop_repaired : w_loop_call1 false = Some (cInterrupt, [5; 3; 4]).
+Proof. vm_compute; reflexivity. Qed.
 
 (* before the repair the stale nested checkpoint was applied again on every iteration: node 5 runs again
    and again on the input saved at the first interrupt, node 4 never runs, until the step limit *)
 Lemma resume_v0_reuses_stale_checkpoint : exists l, w_loop_call1 true = Some (cStepLimit, l) /\
-  (List.length (filter (fun ev : evt => N.eqb (fst (fst ev)) 5) l) > 1)%nat /\
-  filter (fun ev : evt => N.eqb (fst (fst ev)) 4) l = [].
+  (List.length (filter (N.eqb 5) l) > 1)%nat /\ filter (N.eqb 4) l = [].
 Proof. eexists; split; [vm_compute; reflexivity|]. split; vm_compute; auto. Qed.
 
 (* ---------- F-C05c: eager mode, an interrupt-before hit while a running task then asks for a rerun ---------- *)
@@ -134,3 +134,33 @@ Proof. vm_compute; reflexivity. Qed.
    never becomes ready again and the run dies with "no tasks to execute" *)
 Lemma estep_v0_loses_pending_tasks : w_eager_run true = Some cFail.
 Proof. vm_compute; reflexivity. Qed.
+
+(* ---------- InterruptAndRerun: node 2 aborts its attempts 1 and 2, node 3 its attempt 1 ---------- *)
+Definition w_rerun : gspec :=
+  Build_gspec (Build_graph [Build_node 0 KLambda None [2] [2] [] [];
+                            Build_node 2 KLambda None [3] [3] [] [];
+                            Build_node 3 KLambda None [1] [1] [] []] Pregel false 0%nat)
+              true [2; 3] [(2, [1; 2]); (3, [1])] [] [3].
+Definition w_rerun_gr := gs_graph w_rerun.
+
+Lemma w_rerun_ok : rerun_ok w_rerun.
+Proof.
+  split; [reflexivity|]. intros k l H. simpl in H.
+  destruct (N.eqb k 2) eqn:E2; [apply N.eqb_eq in E2; subst; reflexivity|].
+  destruct (N.eqb k 3) eqn:E3; [apply N.eqb_eq in E3; subst; reflexivity|discriminate].
+Qed.
+
+Lemma w_rerun_uninterrupted : exists cs0 v l,
+  init_chans value w_rerun_gr = Ok cs0 /\
+  start VNil (ifold w_rerun_gr) (igetr w_rerun_gr) (pre_fn w_rerun)
+        (execU (SCP := ncp) (SINFO := ninfo) lam_body) [] [] 2 cs0 (gs0 w_rerun) x1 tt = (ODone v, l, tt) /\
+  List.length l = 2%nat.
+Proof. do 3 eexists. split; [vm_compute; reflexivity|]. split; vm_compute; reflexivity. Qed.
+
+(* three interrupted calls (aborted attempts), the fourth completes *)
+Lemma w_rerun_completes : exists cos e,
+  drive (fun c : cpt => c) (fun c => Some c) (seg_fresh (lam_ex w_rerun) 0 w_rerun x1) (seg_resumed (lam_ex w_rerun) 0 w_rerun)
+        (fun _ e => e) true 6 0 (fun _ s => s) None (env0 []) = (cos, e) /\
+  map (fun co => class_of w_rerun_gr (co_out co)) cos = [cInterrupt; cInterrupt; cInterrupt; cDone] /\
+  List.length (filter (fun ev => ev_abort ev) (all_logs cos)) = 3%nat.
+Proof. do 2 eexists. split; [vm_compute; reflexivity|]. split; vm_compute; reflexivity. Qed.
